@@ -81,6 +81,21 @@ def gen_history(rng, length):
                               f"{rng.choice([t for t in TERMS if t != base])},dec:3/2,frac:5/2"])
         ops.append(["mc_update", "c", spell(rng, other, y, m, d), good + ";" + badspec, rng.choice(MODES)])
         ops.append(["mc_dump", "c"])
+    elif rng.random() < .5 and kind != "none":
+        # opening: a cross rate (neither currency is the base) asked for, one
+        # of its two base rates replaced for the SAME period, asked for again
+        y, m, d = rng.choice(dates)
+        x, z = rng.sample([t for t in TERMS if t != base], 2)
+        ds = f"{y}-{m}-{d}"
+        def rate():
+            return "dec:" + rat(Fraction(rng.randint(1, 9999), rng.choice([10, 100, 1000])))
+        ops.append(["mc_update", "c", spell(rng, kind, y, m, d), f"{x},{rate()},int:1;{z},{rate()},int:1", _money.MODE])
+        ops.append(["mc_rate", "c", x, z, ds, _money.MODE])
+        ops.append(["mc_rate", "c", z, x, ds, _money.MODE])
+        ops.append(["mc_update", "c", spell(rng, kind, y, m, d), f"{rng.choice([x, z])},{rate()},int:1", _money.MODE])
+        ops.append(["mc_rate", "c", x, z, ds, _money.MODE])
+        ops.append(["mc_rate", "c", z, x, ds, _money.MODE])
+        ops.append(["mc_call", "c", "1000", x, z, ds, _money.MODE])
     lookups = []
     for _ in range(length):
         r = rng.random()
